@@ -109,3 +109,9 @@ def run(ctx):
             "the slice handed to interpolate must be bounded by the threshold (threshold 0 => empty => refused)",
             ctx.fn("star_sharks::Sharks::recover").loc)
     ctx.floor("C16.R3", 3)
+
+    # ---- R5: no length combination of message / coins can crash sharing or recovery (PANIC engine of C09) ------
+    from . import c09
+    c09.run_entries(ctx, "C16.R5", [("adss::Commune::share", {"self.%d" % fidx(ctx, CM, "M"), "self.%d" % fidx(ctx, CM, "R")}, "A"),
+                                     ("adss::recover", {"shares"}, "A")], 64)
+    ctx.floor("C16.R5", 15)
